@@ -220,6 +220,6 @@ def body(ctx, case):
 
 def parts(ctx):
     return [
-        Part("shapes-exhaustive", body, items=shape_cases, exhaustive=True, budget_s={"quick": 150, "thorough": 1500}, case_timeout_s=60),
-        Part("random-circuits", body, strategy=random_case(), n={"quick": 400, "thorough": 15000}, budget_s={"quick": 150, "thorough": 1500}, case_timeout_s=60),
+        Part("shapes-exhaustive", body, items=shape_cases, exhaustive=True, budget_s={"quick": 100, "thorough": 1500}, case_timeout_s=ctx.q(20, 60)),
+        Part("random-circuits", body, strategy=random_case(), n={"quick": 400, "thorough": 15000}, budget_s={"quick": 100, "thorough": 1500}, case_timeout_s=ctx.q(20, 60)),
     ]
